@@ -74,7 +74,8 @@ def c03(work, tier, seed, replay):
         tr, stats = common.vh_gen(work, vh, "c03", seed, tier, timeout=3000)
     finally:
         del os.environ["VH_CASES"]
-    if stats["classes"].get("tlc-conversation") != len(cases):
+    cut_short = any("timeout (no result" in l for l in open(tr))     # the generator ends its run at the first call that hangs
+    if not cut_short and stats["classes"].get("tlc-conversation") != len(cases):
         raise Infra("replayed %s of %d TLC conversations" % (stats["classes"].get("tlc-conversation"), len(cases)))
     viol, tstates, n = validate(work, "Trace_Crash", tr, stats, procs=6 if quick else 12)
     # make the descriptions useful: what crashed
@@ -88,7 +89,8 @@ def c03(work, tier, seed, replay):
     cov = codec_coverage(mcs, stats, tstates, n,
                          "every decoding entry point (dhcpv4.FromBytes, Options.FromBytes, dhcpv6.FromBytes, MessageFromBytes, RelayMessageFromBytes, "
                          "ParseOption for every typed code, DUIDFromBytes, rfc1035label.FromBytes, iana.Archs.FromBytes, BroadcastRawUDPConn.ReadFrom) "
-                         "on: the exhaustive small-scope sets of the wire grammars (length <= 4), valid values of every option type and the vendor "
+                         "on: the exhaustive small-scope sets of the wire grammars (length <= 4; the name decoder alone and behind the DHCPv6 domain list on "
+                         "every string of its 7-symbol structural alphabet up to 7 / 8 bytes), valid values of every option type and the vendor "
                          "strings the zero-touch parsers look for, 6 structural mutations per valid value (truncate, set/perturb a byte, splice, "
                          "append), inputs of 4096..65507 bytes; for each accepted input <= 4096 bytes every reflected niladic exported method of the "
                          "value, its option container and its options, String/Summary, re-encode, the reply / relay-reply / request builders, "
